@@ -113,7 +113,10 @@ def categorise(case, outlier_ids=None):
                 "b": {"dem": u["bd"], "gop": u["bg"], "turnout": bt},
             }
         )
-    for e in case.get("extra", []):
+    # baseline rows of a state outside the config's `states` are not part of the baseline: their feed rows are
+    # passed through like any unit that is not in the baseline
+    foreign = [dict(id=u["id"], st=u["st"], **{k: u["feed"][k] for k in ("pev", "rd", "rg", "ro")}) for u in case.get("foreign", []) if u.get("feed") is not None]
+    for e in list(case.get("extra", [])) + foreign:
         county, dist = parse_unexpected(case, e["id"])
         rt = e["rd"] + e["rg"] + e["ro"]
         rw = (e["rd"] + e["rg"]) if p["margin_mode"] else rt
